@@ -1393,7 +1393,17 @@ class XMLSchemaBase(XsdValidator, ElementPathMixin[Union[SchemaType, XsdElement]
         if context.identities is not identities:
             for identity, counter in context.identities.items():
                 if identity in identities:
-                    identities[identity].counter.update(counter.counter)
+                    merged = identities[identity].counter
+                    if not isinstance(identity, XsdKeyref):
+                        # a value counted once while streaming and once in the
+                        # root pass is duplicated, but no increase() has seen it
+                        for fields, n in counter.counter.items():
+                            if n == 1 and merged.get(fields) == 1:
+                                msg = _("duplicated value {0!r} for {1!r}")
+                                yield context.validation_error(
+                                    validation, self, msg.format(fields, identity), resource.root
+                                )
+                    merged.update(counter.counter)
                 else:
                     identities[identity] = counter
             context.identities = identities
